@@ -52,7 +52,7 @@ def inst_fragment_flags(cx, iid):
         pa = R.body("PendingPacket::acknowledge_fragment")
         pq = R.body("PendingPacket::fragment_acknowledged")
         setv = [(ps, show(pa.rvalue_expr(node["rv"]))) for l, node, ps in pa.field_writes(r"arg1\.ack_flags\[.*\]")]
-        word = "arg1.ack_flags[cast<usize>(div(arg2,64))]"
+        word = "arg1.ack_flags[div(cast<usize>(arg2),64)]"  # canonical position of a widening cast: on the operand
         bit = "shl(1,rem(arg2,64))"  # the normaliser drops the type of a small shift amount
         inst.site(pa, None, "sender ack flag set: %s" % setv)
         if setv not in ([(word, "bitor(%s,%s)" % (word, bit))], [(word, "bitor(%s,%s)" % (bit, word))]):
@@ -79,7 +79,25 @@ def inst_sizes(cx, iid):
         inst.site(pn, None, "last_fragment_id = " + str(got))
         want = "(-1 + 1*1/(%d)*(-1 + %d + [T]::len(arg1)) + eq(0,[T]::len(arg1)))" % (M, M)
         from rules import poly_str as _ps
-        if got is None or _ps(lf) != "-1 + eq(0,[T]::len(arg1)) + idiv(%d + [T]::len(arg1),%d)" % (M - 1, M):
+        okc = got is not None and _ps(lf) == "-1 + eq(0,[T]::len(arg1)) + idiv(%d + [T]::len(arg1),%d)" % (M - 1, M)
+        if not okc and lf is not None:
+            # the same count with the empty packet as an explicit case: if len == 0 { 1 } else { ceil(len / M) }
+            from rules import case_values as _cv
+            cases = _cv(cx, pn, lf)
+            seen_c = set()
+            okc = len(cases) == 2
+            for alts, ce in cases:
+                ps_ = _ps(ce)
+                empty, _ = dnf_holds(alts, [[r"eq\(0,\[T\]::len\(arg1\)\)"]])
+                nonempty, _ = dnf_holds(alts, [[r"ne\(0,\[T\]::len\(arg1\)\)"]])
+                if empty and ps_ == "0":
+                    seen_c.add("empty")
+                elif nonempty and ps_ == "-1 + idiv(%d + [T]::len(arg1),%d)" % (M - 1, M):
+                    seen_c.add("nonempty")
+                else:
+                    okc = False
+            okc = okc and seen_c == {"empty", "nonempty"}
+        if not okc:
             inst.violation(pn.path, "fragment count", "last_fragment_id is `%s`, expected ceil(len / MAX_FRAGMENT_SIZE) + (len == 0) - 1" % (show(lf) if lf else None))
         dg = R.body("PendingPacket::datagram")
         fa = cx.fa(dg)
@@ -277,6 +295,12 @@ def run(cx):
     # for it, rounded to whole fragments the same way on both sides
     from props.C06 import inst_sibling_accounting
     inst_sibling_accounting(cx, "C04.n")
+    # a fragment whose id lies one window ahead maps to the slot of the packet at the window base and is merged into it;
+    # a slot that is not re-opened when the window passes it swallows the fragments of the packet that uses it next
+    from props.C01 import inst_handle_datagram
+    inst_handle_datagram(cx, "C04.o")
+    from props.C06 import inst_release
+    inst_release(cx, "C04.p")
 
 
 SELFTEST = [
